@@ -431,14 +431,14 @@ impl Tour {
         right: Position,
     ) -> Option<Position> {
         if left + 1 == right {
-            if self.network.node(self.nodes[left]).start_time() <= time {
+            if self.network.node(self.nodes[left]).start_time() < time {
                 Some(left)
             } else {
                 None
             }
         } else {
             let mid = left + (right - left) / 2;
-            if self.network.node(self.nodes[mid]).start_time() <= time {
+            if self.network.node(self.nodes[mid]).start_time() < time {
                 self.latest_departure_before(time, mid, right)
             } else {
                 self.latest_departure_before(time, left, mid)
@@ -453,14 +453,14 @@ impl Tour {
         right: Position,
     ) -> Option<Position> {
         if left + 1 == right {
-            if self.network.node(self.nodes[left]).end_time() >= time {
+            if self.network.node(self.nodes[left]).end_time() > time {
                 Some(left)
             } else {
                 None
             }
         } else {
             let mid = left + (right - left) / 2;
-            if self.network.node(self.nodes[mid - 1]).end_time() >= time {
+            if self.network.node(self.nodes[mid - 1]).end_time() > time {
                 self.earliest_arrival_after(time, left, mid)
             } else {
                 self.earliest_arrival_after(time, mid, right)
